@@ -3,6 +3,7 @@ package codegen
 import (
 	"fmt"
 	"path/filepath"
+	"strconv"
 
 	"goa.design/goa/v3/codegen"
 	"goa.design/goa/v3/codegen/cli"
@@ -218,6 +219,7 @@ func makeFlags(e *EndpointData, args []*InitArgData, payload expr.DataType) ([]*
 		params    = make([]string, len(args))
 		pInitArgs = make([]*codegen.InitArgData, len(args))
 		check     bool
+		flagNames = make(map[string]int, len(args))
 	)
 	for i, arg := range args {
 		pInitArgs[i] = &codegen.InitArgData{
@@ -230,6 +232,14 @@ func makeFlags(e *EndpointData, args []*InitArgData, payload expr.DataType) ([]*
 		}
 
 		f := cli.NewFlagData(e.ServiceName, e.Method.Name, arg.VarName, arg.TypeName, arg.Description, arg.Required, arg.Example, arg.DefaultValue)
+		if n := flagNames[f.Name]; n > 0 {
+			// e.g. an attribute called "body" that is not in the body:
+			// make the flag and the corresponding variable unique.
+			suffix := strconv.Itoa(n + 1)
+			f.Name += suffix
+			f.FullName += suffix
+		}
+		flagNames[f.Name]++
 		flags[i] = f
 		params[i] = f.FullName
 		if arg.FieldName == "" && arg.VarName != "body" {
